@@ -285,8 +285,8 @@ PROPS["C16"] = dict(
 )
 
 _SYNC_RULE = ("pairs of (local CLI repository on badger+SQLite, remote repository behind an in-process reference HTTP server assembled from the repository's own finder/sender/receiver) "
-              "grown from a common history of 1..3 commits and then made remote-ahead / local-ahead / diverged / equal / unrelated, with a tag that may move; one of `wrgl fetch` (forced or "
-              "plain refspec, with/without tags, depth 0..2), `wrgl push`, `wrgl pull`, `wrgl merge` (ff / no-ff / ff-only), with and without --force; max packfile size 1 / 700 / 5000 / default; "
+              "grown from a common history of 1..3 commits and then made remote-ahead / local-ahead / diverged / equal / unrelated, with a tag that may move and an optional second branch (equal / ahead / unrelated / rewound); one of `wrgl fetch` (forced or "
+              "plain glob refspec or explicit per-branch refspecs with independent force flags in either order, with/without tags, depth 0..2), `wrgl push`, `wrgl pull`, `wrgl merge` (ff / no-ff / ff-only), with and without --force; max packfile size 1 / 700 / 5000 / default; "
               "the server refuses or accepts non-fast-forwards; refs, latest reflog entries, commits and usable tables of both sides observed before and after, and after an immediate repeat; "
               "non-trivial = remote-ahead, diverged or unrelated; distinct = distinct (op, input)")
 
@@ -296,7 +296,7 @@ PROPS["C09"] = dict(
                "when the want is already an acknowledged common commit nothing is listed (idempotence of the selection). Runtime side: the real CLI (`wrgl fetch/push/pull`) is run against a reference server on generated repository pairs; the Lean driver evaluates the closure, depth, nothing-lost, object-identity and repeat-changes-nothing clauses on both repositories' observed state.",
     level_note=LEVEL_NOTE + "PARTIAL: one want per theorem; the negotiation rounds are abstracted to 'acknowledged commons are commits the receiver holds'; the HTTP sessions (upload_pack_session.go / receive_pack_session.go), gzip, cookies and retries are exercised end to end but not modelled message by message; the reference server assembled in harness/refserver.go from the repository's own finder/sender/receiver is trusted harness code.",
     lean_modules=["WrglModel.Props.C09"],
-    quick_n=64, thorough_n=800, rule=_SYNC_RULE,
+    quick_n=120, thorough_n=800, rule=_SYNC_RULE,
     modelled="the closure a successful fetch / push must establish, composed from the C08 finder and C07 transfer models; upload_pack_session.go / receive_pack_session.go are exercised end to end, not modelled message by message",
     assumptions=["the reference server (harness/refserver.go) is harness code in the trusted base", "HTTP, gzip, cookies and retries are not modelled"],
 )
@@ -307,7 +307,7 @@ PROPS["C10"] = dict(
                "The models are tied to the code by running the real CLI (`wrgl fetch/push/pull/merge`) against a reference server on generated repository pairs and having the Lean driver evaluate the same decision functions on the observed before/after refs.",
     level_note=LEVEL_NOTE + "PARTIAL: the tie is differential (no translator for the if-chains); the server-side half of a push (receive-pack's own non-fast-forward refusal) is the harness's reference server, so only the client's refusal is checked; reflog content is compared, its SQL storage is not modelled.",
     lean_modules=["WrglModel.Props.C10"],
-    quick_n=64, thorough_n=800, rule=_SYNC_RULE,
+    quick_n=200, thorough_n=800, rule=_SYNC_RULE,
     modelled="cmd/wrgl/fetch/root.go saveFetchedRefs, cmd/wrgl/push_cmd.go identifyUpdates, cmd/wrgl/merge_cmd.go runMerge (the if-chains, as fetchDecision / pushDecision / mergeDecision)",
     assumptions=["server-side ref update on push is reference-server code", "`wrgl pull` uses the remote's configured (forced) refspec for remote-tracking refs"],
 )
